@@ -17,7 +17,7 @@ INFO = {
     "outside": ["configurations in which a range's symbol-valued bounds cross (low > high): no value can satisfy it", "hex/float spellings outside the candidate lists", "the config-server door is exercised in C15's harness", "well-formedness is 'convertible by int(s, base) / float(s)' (the implementation's documented validity notion), not a stricter lexical form"],
     "stubs": ["memfs behind esp_kconfiglib.core / kconfgen.core"],
 }
-BUDGET = {"quick": 200, "thorough": 1100}
+BUDGET = {"quick": 200, "thorough": 800}
 
 
 def _ranges_from_dsl(tid):
